@@ -13,6 +13,8 @@
 EXTENDS Registry
 
 TPath(lead, segs, args) == [k |-> "path", lead |-> lead, segs |-> segs, args |-> args]
+\* a path with generic arguments on a segment that is not the last one: per-segment argument lists
+QPath(lead, segs, segargs) == [k |-> "qpath", lead |-> lead, segs |-> segs, segargs |-> segargs]
 IsPathTo(t, lead, segs) == t.k = "path" /\ t.lead = lead /\ t.segs = segs
 
 AllocP(S, tail) == [lead |-> S.alloc.lead, segs |-> S.alloc.segs \o tail]
@@ -68,6 +70,7 @@ RECURSIVE SubstTy(_, _)
 SubstTy(t, genv) ==
   CASE t.k = "path" -> IF IsParamUse(t) /\ GenvHas(genv, t.segs[1]) THEN GenvGet(genv, t.segs[1])
                        ELSE [t EXCEPT !.args = [i \in DOMAIN @ |-> SubstTy(@[i], genv)]]
+    [] t.k = "qpath" -> [t EXCEPT !.segargs = [sg \in DOMAIN @ |-> [i \in DOMAIN @[sg] |-> SubstTy(@[sg][i], genv)]]]
     [] t.k = "tup"  -> [t EXCEPT !.elems = [i \in DOMAIN @ |-> SubstTy(@[i], genv)]]
     [] t.k = "arr"  -> [t EXCEPT !.of = SubstTy(@, genv)]
     [] OTHER        -> t
@@ -105,6 +108,10 @@ SubstMatch(reg, S, Root, rule, live, pat, t, asm) ==
   ELSE IF pat.k = "path"
        THEN /\ t.k = "path" /\ t.lead = pat.lead /\ t.segs = pat.segs /\ Len(t.args) = Len(pat.args)
             /\ \A a \in DOMAIN pat.args : SubstMatch(reg, S, Root, rule, live, pat.args[a], t.args[a], asm)
+  ELSE IF pat.k = "qpath"      \* generic arguments on inner segments, e.g. ::ext::Generic<A, B>::Output
+       THEN /\ t.k = "qpath" /\ t.lead = pat.lead /\ t.segs = pat.segs /\ Len(t.segargs) = Len(pat.segargs)
+            /\ \A sg \in DOMAIN pat.segargs : /\ Len(t.segargs[sg]) = Len(pat.segargs[sg])
+                                               /\ \A a \in DOMAIN pat.segargs[sg] : SubstMatch(reg, S, Root, rule, live, pat.segargs[sg][a], t.segargs[sg][a], asm)
        ELSE t = pat
 
 FieldsFaithful(reg, S, Root, rf, gf, genv, asm) ==
@@ -143,7 +150,7 @@ Faithful(reg, S, Root, id, t0, asm) ==
          IF IsSubstituted(S, e.path) THEN
               LET rule == RuleFor(S, e.path)
                   lp == LiveParams(e)
-              IN IF Len(rule.src.args) = 0 /\ Len(rule.dst.args) = 0
+              IN IF Len(rule.src.args) = 0 /\ rule.dst.k = "path" /\ Len(rule.dst.args) = 0
                  THEN \* no declared generics: the original resolved arguments in order
                       /\ t.k = "path" /\ t.lead = rule.dst.lead /\ t.segs = rule.dst.segs /\ Len(t.args) = Len(lp)
                       /\ \A i \in DOMAIN lp : Rec(lp[i].ty, t.args[i])
@@ -179,6 +186,7 @@ FaithfulTop(reg, S, Root, id, t) == Faithful(reg, S, Root, id, t, <<>>)
 RECURSIVE RefersTo(_, _)
 RefersTo(t, segs) ==   \* does the type tree mention the path (root-relative, no leading ::) anywhere?
   CASE t.k = "path" -> (~t.lead /\ t.segs = segs) \/ \E i \in DOMAIN t.args : RefersTo(t.args[i], segs)
+    [] t.k = "qpath" -> \E sg \in DOMAIN t.segargs : \E i \in DOMAIN t.segargs[sg] : RefersTo(t.segargs[sg][i], segs)
     [] t.k = "tup"  -> \E i \in DOMAIN t.elems : RefersTo(t.elems[i], segs)
     [] t.k = "arr"  -> RefersTo(t.of, segs)
     [] OTHER -> FALSE
@@ -218,6 +226,7 @@ TyResolves(Root, generics, t) ==
                  THEN LET it == FindItem(Root, t.segs) IN it.kind # "none" /\ Len(t.args) = Len(it.generics)
             ELSE IF Len(t.segs) = 1 /\ Len(t.args) = 0 /\ (\E g \in DOMAIN generics : generics[g] = t.segs[1]) THEN TRUE
             ELSE ~(Len(t.segs) = 1 /\ Len(t.segs[1]) >= 2 /\ SubSeq(t.segs[1], 1, 1) = "_")  \* a stray `_i` is unresolved; other relative paths are configured by the user
+    [] t.k = "qpath" -> \A sg \in DOMAIN t.segargs : \A i \in DOMAIN t.segargs[sg] : TyResolves(Root, generics, t.segargs[sg][i])
     [] t.k = "tup" -> \A i \in DOMAIN t.elems : TyResolves(Root, generics, t.elems[i])
     [] t.k = "arr" -> t.len >= 0 /\ TyResolves(Root, generics, t.of)
     [] OTHER -> TRUE
@@ -225,6 +234,7 @@ TyResolves(Root, generics, t) ==
 RECURSIVE Mentions(_, _)
 Mentions(t, g) ==
   CASE t.k = "path" -> (IsParamUse(t) /\ t.segs[1] = g) \/ \E i \in DOMAIN t.args : Mentions(t.args[i], g)
+    [] t.k = "qpath" -> \E sg \in DOMAIN t.segargs : \E i \in DOMAIN t.segargs[sg] : Mentions(t.segargs[sg][i], g)
     [] t.k = "tup"  -> \E i \in DOMAIN t.elems : Mentions(t.elems[i], g)
     [] t.k = "arr"  -> Mentions(t.of, g)
     [] OTHER -> FALSE
